@@ -439,6 +439,93 @@ func genGuards(c *ctx) {
 		doHash(fsize, steps, goods)
 	}
 
+	// ---- the sender's chunk buffer over acknowledgement sequences (real pipelineRecvAck) ----
+	// Direct oracle, independent of the model: every size the buffer takes is positive and not above
+	// the larger of the initial size, the announced limit and 1 GiB, and newSendDataWriter's make
+	// does not panic on the final size.
+	doBufEvo := func(maxbuf int64, lens, times []int64) {
+		ages := make([]int64, len(times))
+		for i, t := range times {
+			switch {
+			case t == 0:
+				ages[i] = 0
+			case t == 1:
+				ages[i] = 1100
+			default:
+				ages[i] = t*1000 + 350
+			}
+		}
+		used, sizes, makePanic, e := trzsz.VerifBufsizeEvolution(maxbuf, lens, ages)
+		fmtList := func(v []int64) string {
+			if len(v) == 0 {
+				return "-"
+			}
+			p := make([]string, len(v))
+			for i, x := range v {
+				p[i] = strconv.FormatInt(x, 10)
+			}
+			return strings.Join(p, ",")
+		}
+		// one key per announced limit: the sequences that expose it are in the detail
+		key := strconv.FormatInt(maxbuf, 10)
+		if e != "" {
+			c.violate("bufsize-evolution-failed:"+key, "pipelineRecvAck did not get through a sequence of well-formed acknowledgements", e)
+			return
+		}
+		hi := int64(10240)
+		if maxbuf > hi {
+			hi = maxbuf
+		}
+		if hi > 1<<30 {
+			hi = 1 << 30
+		}
+		for _, sz := range sizes {
+			if sz < 1 || sz > hi {
+				c.violate("bufsize-capacity:"+key, fmt.Sprintf("the sender's chunk buffer size became %d for an announced limit of %d (it must stay within 1..%d)", sz, maxbuf, hi),
+					fmt.Sprintf("announced bufsize=%d acknowledged lengths=%s chunk times(0 fast,1 mid,k slow s)=%s => sizes %s; make: %s", maxbuf, fmtList(used), fmtList(times), fmtList(sizes), makePanic))
+				break
+			}
+		}
+		if makePanic != "" {
+			c.violate("bufsize-capacity:"+key, "newSendDataWriter panicked on the buffer size reached: "+makePanic,
+				fmt.Sprintf("announced bufsize=%d acknowledged lengths=%s chunk times=%s => sizes %s", maxbuf, fmtList(used), fmtList(times), fmtList(sizes)))
+		}
+		c.count(fmt.Sprintf("bufevo:grew=%v", len(sizes) > 1 && sizes[len(sizes)-1] > sizes[0]))
+		c.emit(len(used) > 0, "c12_bufevo", fmtList(sizes), strconv.FormatInt(maxbuf, 10), fmtList(used), fmtList(times))
+	}
+	evoLimits := []int64{math.MinInt64, -(1 << 62), -(1 << 31), -10240, -1, 0, 1, 1023, 1024, 5000, 10239, 10240, 10241, 20479, 20480, 20481, 30000, 40960, 81920,
+		10 << 20, 1 << 30, 1<<30 + 1, 1 << 31, 1 << 62, math.MaxInt64}
+	for _, mb := range evoLimits {
+		eff := mb
+		if eff > 1<<30 {
+			eff = 1 << 30 // what recvConfig makes of it
+		}
+		doBufEvo(eff, nil, nil)
+		doBufEvo(eff, []int64{-1}, []int64{0})                                // one full fast chunk: the growth guard
+		doBufEvo(eff, []int64{-1, -1, -1, -1}, []int64{0, 0, 0, 0})           // keeps doubling up to the limit
+		doBufEvo(eff, []int64{-1, -2, -1}, []int64{0, 0, 0})                  // a short chunk in between
+		doBufEvo(eff, []int64{-1, -1, -1}, []int64{0, 3, 0})                  // a slow chunk: shrinks
+		doBufEvo(eff, []int64{-1, -1, -1, -1, -1}, []int64{20, 20, 20, 0, 0}) // down to the floor and up again
+		doBufEvo(eff, []int64{-1, 7, -1}, []int64{1, 2, 0})
+		doBufEvo(eff, []int64{-1, -1, -1, -1, -1, -1, -1}, []int64{50, 50, 50, 50, 50, 0, 0}) // far below the floor if there were none
+	}
+	for i := 0; i < c.pick(40, 800); i++ {
+		mb := evoLimits[c.rng.Intn(len(evoLimits))]
+		if c.rng.Intn(3) == 0 {
+			mb = int64(c.rng.Intn(300000)) - 50000
+		}
+		if mb > 1<<30 {
+			mb = 1 << 30
+		}
+		k := 1 + c.rng.Intn(8)
+		lens, times := make([]int64, k), make([]int64, k)
+		for j := range lens {
+			lens[j] = []int64{-1, -1, -1, -2, 0, 1, 10240, 1024, 20480}[c.rng.Intn(9)]
+			times[j] = []int64{0, 0, 0, 0, 1, 2, 3, 9, 50}[c.rng.Intn(9)]
+		}
+		doBufEvo(mb, lens, times)
+	}
+
 	// ---- bar width ----
 	doBar := func(term, pane int32) {
 		col, e := trzsz.VerifBarColumns(term, pane)
